@@ -41,6 +41,7 @@ type Finding struct {
 	Sig  string          `json:"sig"`
 	What string          `json:"what"`
 	Case json.RawMessage `json:"case"`
+	Unit string          `json:"unit,omitempty"` // the unit whose enumeration reached the case
 }
 
 // Rec collects what one unit of work covered.
@@ -59,17 +60,39 @@ type Rec struct {
 	maxSamples  int
 	out         *bufio.Writer
 	deadline    time.Time
-	cur         atomic.Value // last case announced with Enter (for the hang watchdog)
-	stamp       int64        // bumped by Enter and Begin
-	maxGap      int64        // longest time without progress seen by the watchdog (ms)
+	cur         atomic.Value  // last case announced with Enter (for the hang watchdog)
+	stamp       int64         // bumped by Enter and Begin
+	maxGap      int64         // longest time without progress seen by the watchdog (ms)
+	hangLimit   time.Duration // per-unit override sent by the parent (0 = default)
 }
 
 // Enter cheaply notes the case that is about to run (no I/O); if the unit then makes no
 // progress for the hang limit, the watchdog attributes the hang to this case.
 func (r *Rec) Enter(c interface{}) {
+	if announce {
+		r.Begin(c)
+		return
+	}
 	r.cur.Store(&c)
 	atomic.AddInt64(&r.stamp, 1)
 }
+
+// EnterF is Enter with the case built only when somebody needs it (hot loops).
+func (r *Rec) EnterF(f func() interface{}) {
+	if announce {
+		r.Begin(f())
+		return
+	}
+	var c interface{} = lazyCase(f)
+	r.cur.Store(&c)
+	atomic.AddInt64(&r.stamp, 1)
+}
+
+type lazyCase func() interface{}
+
+// announce: the parent re-runs a unit in which a worker died with every Enter flushed to the
+// parent (as Begin does), so that the death can be attributed to a case.
+var announce = os.Getenv("VERIF_ANNOUNCE") == "1"
 
 func newRec(unit string, out *bufio.Writer) *Rec {
 	return &Rec{Unit: unit, Counters: map[string]int64{}, FindingN: map[string]int64{},
@@ -134,7 +157,8 @@ func (r *Rec) Fail(sig, what string, c interface{}) {
 // Begin announces a case that may kill the worker process; if the worker dies
 // the parent attributes the death to the last announced case.
 func (r *Rec) Begin(c interface{}) {
-	r.Enter(c)
+	r.cur.Store(&c)
+	atomic.AddInt64(&r.stamp, 1)
 	b, _ := json.Marshal(c)
 	r.out.WriteString("B ")
 	r.out.Write(b)
@@ -230,6 +254,27 @@ func Try(f func()) (panicked bool, msg string, frame string) {
 	return
 }
 
+// defaultDiedSig names the death of a process (unrecoverable: stack overflow, out of memory, a
+// panic in a goroutine of the code under test) by its message class and innermost gedcom frame.
+func defaultDiedSig(stderr string) (sig, what string) {
+	msg := ""
+	for _, l := range strings.Split(stderr, "\n") {
+		if strings.HasPrefix(l, "fatal error:") || strings.HasPrefix(l, "panic:") || strings.HasPrefix(l, "runtime: goroutine stack exceeds") {
+			msg = l
+			if strings.HasPrefix(l, "runtime: goroutine stack exceeds") {
+				msg = "stack overflow"
+			}
+			break
+		}
+	}
+	fr := topRepoFrame(stderr)
+	head := stderr
+	if len(head) > 1500 {
+		head = head[:1500]
+	}
+	return "process-dies:" + MsgClass(strings.TrimPrefix(strings.TrimPrefix(msg, "fatal error: "), "panic: ")) + ":" + fr, "the process running the case died (not recoverable by a caller):\n" + head
+}
+
 func topRepoFrame(stack string) string {
 	lines := strings.Split(stack, "\n")
 	for i := 0; i+1 < len(lines); i++ {
@@ -317,12 +362,19 @@ func workerMain(c *Check, tier string) {
 		if line != "" {
 			// "<deadline-unix-ms> <unit>"
 			sp := strings.IndexByte(line, ' ')
-			ms, _ := strconv.ParseInt(line[:sp], 10, 64)
+			head := line[:sp]
+			hangMs := int64(0)
+			if i := strings.IndexByte(head, ','); i >= 0 {
+				hangMs, _ = strconv.ParseInt(head[i+1:], 10, 64)
+				head = head[:i]
+			}
+			ms, _ := strconv.ParseInt(head, 10, 64)
 			unit := line[sp+1:]
 			r := newRec(unit, out)
 			if ms > 0 {
 				r.deadline = time.UnixMilli(ms)
 			}
+			r.hangLimit = time.Duration(hangMs) * time.Millisecond
 			stop := startWatchdog(c, tier, unit, r, func(line string) {
 				os.Stdout.WriteString(line)
 				os.Exit(3)
@@ -373,10 +425,22 @@ type HangCase struct {
 	Case     json.RawMessage `json:"last_case,omitempty"`
 }
 
+// UnitCase is the replayable description of a finding that needs the history of its unit: the
+// unit is re-run from its start in a fresh process.
+type UnitCase struct {
+	ReplayUnit string          `json:"replay_unit"`
+	Tier       string          `json:"tier"`
+	Sig        string          `json:"signature"`
+	Case       json.RawMessage `json:"case"`
+}
+
 // startWatchdog watches r for progress (evaluation count, Enter/Begin stamps); on a hang it calls
 // report with an "H <json>\n" line. The returned function stops it.
 func startWatchdog(c *Check, tier, unit string, r *Rec, report func(line string)) func() {
 	limit := hangLimit(c)
+	if r.hangLimit > 0 && r.hangLimit < limit {
+		limit = r.hangLimit
+	}
 	done := make(chan struct{})
 	go func() {
 		lastE, lastS := int64(-1), int64(-1)
@@ -402,7 +466,11 @@ func startWatchdog(c *Check, tier, unit string, r *Rec, report func(line string)
 			}
 			hc := HangCase{HangUnit: unit, Tier: tier, Evals: e}
 			if p, ok := r.cur.Load().(*interface{}); ok && p != nil {
-				hc.Case, _ = json.Marshal(*p)
+				v := *p
+				if f, ok := v.(lazyCase); ok {
+					v = f()
+				}
+				hc.Case, _ = json.Marshal(v)
 			}
 			b, _ := json.Marshal(hc)
 			report("H " + string(b) + "\n")
@@ -450,6 +518,7 @@ func decodeHashes(s string, into map[uint64]struct{}) {
 }
 
 type merged struct {
+	hangSeen    map[string]bool
 	mu          sync.Mutex
 	evaluations int64
 	hashes      map[uint64]struct{}
@@ -485,6 +554,9 @@ func (m *merged) add(r *Rec) {
 		m.samples = append(m.samples, r.Samples...)
 	}
 	for _, f := range r.Findings {
+		if f.Unit == "" {
+			f.Unit = r.Unit
+		}
 		old, ok := m.findings[f.Sig]
 		if !ok || len(f.Case) < len(old.Case) {
 			m.findings[f.Sig] = f
@@ -537,7 +609,7 @@ func parentMain(c *Check, tier string, jobs int) int {
 			deadline = start.Add(d)
 		}
 	}
-	m := &merged{hashes: map[uint64]struct{}{}, counters: map[string]int64{},
+	m := &merged{hangSeen: map[string]bool{}, hashes: map[uint64]struct{}{}, counters: map[string]int64{},
 		findings: map[string]Finding{}, findingN: map[string]int64{}}
 	work := make(chan string, len(units))
 	for _, u := range units {
@@ -608,6 +680,27 @@ func parentMain(c *Check, tier string, jobs int) int {
 			if c.MinRepro > 0 && c.MinRepro < need {
 				need = c.MinRepro
 			}
+			if okN < need && okN == 0 && f.Unit != "" && !strings.HasPrefix(s, "hang:") {
+				// The case alone does not reproduce in a fresh process. The code under test may keep
+				// process-wide state (caches, shared nodes) so that the failure needs the cases
+				// enumerated before it: re-run the whole (deterministic) unit in a fresh process, twice.
+				uc, _ := json.Marshal(UnitCase{ReplayUnit: f.Unit, Tier: tier, Sig: s, Case: f.Case})
+				n := 0
+				for i := 0; i < 2; i++ {
+					got, _ := replayInSubprocess(c, uc)
+					for _, g := range strings.Split(got, "\x1f") {
+						if g == s || (c.SameFinding != nil && g != "" && c.SameFinding(s, g)) {
+							n++
+							break
+						}
+					}
+				}
+				if n == 2 {
+					f.Case = uc
+					f.What = "(reproduces only after the earlier cases of its unit in the same process: the code under test keeps state across calls) " + f.What
+					okN = need
+				}
+			}
 			if okN < need {
 				fmt.Fprintf(os.Stderr, "INTERNAL: finding %s reproduced %d/%d times on replay; not reported as violation\ncase: %s\n", s, okN, tries, f.Case)
 				exit = 2
@@ -675,6 +768,7 @@ func runWorker(c *Check, tier string, work chan string, m *merged, deadline time
 			return
 		}
 		pending := &unit
+		announcing := false
 		for pending != nil {
 			if !deadline.IsZero() && time.Now().After(deadline) {
 				onTimeout()
@@ -682,6 +776,9 @@ func runWorker(c *Check, tier string, work chan string, m *merged, deadline time
 			}
 			cmd := exec.Command(os.Args[0], "--worker", "--tier", tier)
 			cmd.Env = append(os.Environ(), "GOMAXPROCS=2", "GOMEMLIMIT=6GiB")
+			if announcing {
+				cmd.Env = append(cmd.Env, "VERIF_ANNOUNCE=1")
+			}
 			stdin, _ := cmd.StdinPipe()
 			stdout, _ := cmd.StdoutPipe()
 			var errBuf tailBuffer
@@ -701,7 +798,14 @@ func runWorker(c *Check, tier string, work chan string, m *merged, deadline time
 				if !deadline.IsZero() {
 					ms = deadline.UnixMilli()
 				}
-				fmt.Fprintf(stdin, "%d %s\n", ms, u)
+				// once a unit family has hung (and is reported), its other units get a short limit
+				hm := int64(0)
+				m.mu.Lock()
+				if m.hangSeen[hangSig(u)] {
+					hm = 10000
+				}
+				m.mu.Unlock()
+				fmt.Fprintf(stdin, "%d,%d %s\n", ms, hm, u)
 			}
 			send(*pending)
 			cur := *pending
@@ -753,6 +857,28 @@ func runWorker(c *Check, tier string, work chan string, m *merged, deadline time
 				m.add(r)
 				m.mu.Lock()
 				m.unitsDone--
+				m.capped = true
+				m.hangSeen[hangSig(cur)] = true
+				m.mu.Unlock()
+				pending = nil
+				continue
+			}
+			if died && lastBegin == nil && !announcing {
+				// nobody announced the fatal case: run the unit again with every Enter announced
+				announcing = true
+				continue
+			}
+			if died && lastBegin != nil && (c.DiedSig == nil || announcing) {
+				sig, what := defaultDiedSig(errBuf.String())
+				if c.DiedSig != nil {
+					sig, what = c.DiedSig(lastBegin, errBuf.String())
+				}
+				r := newRec(cur, nil)
+				r.Fail(sig, what, lastBegin)
+				r.HashBlob = ""
+				m.add(r)
+				m.mu.Lock()
+				m.unitsDone-- // unit not completed and (without resume support) not resumed
 				m.capped = true
 				m.mu.Unlock()
 				pending = nil
@@ -850,8 +976,12 @@ func replayInSubprocess(c *Check, cs json.RawMessage) (string, string) {
 			sig += strings.TrimPrefix(l, "REPLAY-SIG: ")
 		}
 	}
-	if sig == "" && !strings.Contains(s, "REPLAY-PASS") && c.DiedSig != nil {
-		sig, _ = c.DiedSig(cs, s)
+	if sig == "" && !strings.Contains(s, "REPLAY-PASS") {
+		if c.DiedSig != nil {
+			sig, _ = c.DiedSig(cs, s)
+		} else if strings.Contains(s, "fatal error:") || strings.Contains(s, "panic:") || strings.Contains(s, "goroutine ") {
+			sig, _ = defaultDiedSig(s)
+		}
 	}
 	return sig, s
 }
@@ -891,6 +1021,25 @@ func replayMain(c *Check, path string) int {
 		fmt.Println("unit completed")
 		fmt.Println("REPLAY-PASS")
 		return 0
+	}
+	var uc UnitCase
+	if json.Unmarshal(rf.Case, &uc) == nil && uc.ReplayUnit != "" {
+		r := newRec(uc.ReplayUnit, bufio.NewWriter(io.Discard))
+		stop := startWatchdog(c, uc.Tier, uc.ReplayUnit, r, func(line string) {
+			fmt.Println("REPLAY-SIG: " + hangSig(uc.ReplayUnit))
+			os.Exit(1)
+		})
+		c.Run(uc.Tier, uc.ReplayUnit, r)
+		stop()
+		if len(r.Findings) == 0 {
+			fmt.Println("REPLAY-PASS")
+			return 0
+		}
+		for _, f := range r.Findings {
+			fmt.Printf("unit %s: %s: %s\n", uc.ReplayUnit, f.Sig, f.What)
+			fmt.Println("REPLAY-SIG: " + f.Sig)
+		}
+		return 1
 	}
 	if c.Replay == nil {
 		fmt.Fprintln(os.Stderr, "no replay for this check")
